@@ -15,6 +15,7 @@
     "every call returns".  gen/ObPanics.v accounts for every explicit panic/assert site of
     the sources. *)
 From Coq Require Import List NArith ZArith QArith Bool.
+From JS Require Clone.
 From JS Require Import Str Lit Json Res GoValue Hash Schema CodecBase Codec UnmarshalTotal Env Ann Validate Spec Refine Corollaries Defaults Uri Resolve ResolveTotal GoType Infer InferTotal NoPanic ResolveEnvOK Terminates.
 Import ListNotations.
 
@@ -150,3 +151,24 @@ Theorem C10_fortype_returns : forall o t,
   (gdepth t < 64)%nat -> (exists r, ForType o t = Ok r) \/ ForType o t = Err.
 Proof. exact ForType_returns. Qed.
 Print Assumptions C10_fortype_returns.
+
+(** Resolve on pointer graphs (a *Schema value need not be a tree): the structure check
+    (heap model, heap/Clone.v [check]: a walk carrying the set of objects seen) ends with an
+    error as soon as an object is met a second time - sharing and cycles alike - and what it
+    accepts is a tree of pairwise distinct allocated objects, so every later traversal of
+    the resolver is structural; CloneSchemas returns on every finite tree *)
+Theorem C10_structure_rejects_revisit : forall D K n (h : JS.heap.Clone.heap D K) seen a,
+  In a seen -> JS.heap.Clone.check D K n h seen a = None.
+Proof. exact JS.heap.Clone.check_rejects_seen. Qed.
+Print Assumptions C10_structure_rejects_revisit.
+
+Theorem C10_structure_accepts_trees : forall D K n (h : JS.heap.Clone.heap D K) a s,
+  JS.heap.Clone.check D K n h [] a = Some s ->
+  NoDup s /\ (forall x, In x s -> (x < length h)%nat) /\ In a s.
+Proof. exact JS.heap.Clone.check_accepts_tree. Qed.
+Print Assumptions C10_structure_accepts_trees.
+
+Theorem C10_clone_returns : forall D K m (h : JS.heap.Clone.heap D K) a t,
+  JS.heap.Clone.abs D K m h a = Some t -> exists h' a', JS.heap.Clone.clone D K m h a = Some (h', a').
+Proof. exact JS.heap.Clone.clone_total. Qed.
+Print Assumptions C10_clone_returns.
